@@ -26,7 +26,10 @@ func zzFeedSetup() *zzFeeds {
 	k := NewKeeper(zzverif.Codec(), zzverif.StoreKey("oracle"), zzverif.Subspace("oracle"), bank)
 	f := &zzFeeds{k: *k, srv: msgServer{Keeper: *k}}
 	f.ctx = zzverif.Ctx(zzverif.NondetRange("height", 0, 1<<40), zzverif.NondetTime("blocktime"), 0)
-	f.k.SetParams(f.ctx, types.Params{Deposit: zzverif.NondetAddr("param.Deposit")})
+	dep := zzverif.NondetAddr("param.Deposit")
+	depAcc, _ := sdk.AccAddressFromBech32(dep)
+	zzverif.Assume(zzverif.And(!zzverif.IsModuleAddr(depAcc), !zzverif.Blocked(depAcc))) // an ordinary account
+	f.k.SetParams(f.ctx, types.Params{Deposit: dep})
 	f.name = zzverif.NondetString("observed.feed")
 	f.pre, f.had = f.k.GetFeed(f.ctx, f.name)
 	return f
@@ -39,6 +42,8 @@ func zzSameFeed(a, b types.Feed) bool {
 func VH_C11_oracle_create() {
 	f := zzFeedSetup()
 	msg := types.MsgCreateFeed{Creator: zzverif.NondetAddr("creator"), Name: zzverif.NondetString("name")}
+	signer, _ := sdk.AccAddressFromBech32(msg.Creator)
+	zzverif.Assume(zzverif.And(!zzverif.IsModuleAddr(signer), !zzverif.Blocked(signer))) // signers are ordinary accounts
 	err, pan := zzverif.Deliver(func() error { _, er := f.srv.CreateFeed(sdk.WrapSDKContext(f.ctx), &msg); return er })
 	post, has := f.k.GetFeed(f.ctx, f.name)
 	if has == f.had && (!has || zzSameFeed(post, f.pre)) {
